@@ -406,13 +406,13 @@ func runReplay(repo, pkgName, goFile, testName, kind string) (string, bool) {
 func (ex *Exec) buildReplayTest(r *oblResult) (string, string, error) {
 	// bounded, quantifier-free candidate search (see ground.go)
 	const bound = 8
-	ms, status, err := startModel(ex.candidateQuery(r.O, *r.SG, bound, true), 30)
+	ms, status, err := startModel(ex.candidateQuery(r.O, *r.SG, bound, true), 10)
 	if err != nil {
 		return "", "", err
 	}
 	if status != "sat" {
 		ms.close()
-		ms, status, err = startModel(ex.candidateQuery(r.O, *r.SG, bound, false), 30)
+		ms, status, err = startModel(ex.candidateQuery(r.O, *r.SG, bound, false), 10)
 		if err != nil {
 			return "", "", err
 		}
